@@ -272,7 +272,9 @@ func (p *peer) Dial(addr string, protoFunc ...ProtoFunc) (Session, *Status) {
 	Infof("dial ok (network:%s, addr:%s, id:%s)", p.network, addr, sess.ID())
 	p.sessHub.set(sess)
 	if !sess.tryChangeStatus(statusOk, statusPreparing) {
-		// closed meanwhile (its id was taken over, or the peer is closing): it must not come back to life
+		// closed meanwhile (its id was taken over, or the peer is closing): it must not come back to life,
+		// and the entry just written for it must not stay in the index
+		p.sessHub.deleteIf(sess.ID(), sess)
 		return nil, statConnClosed.Copy("the session was closed while it was being set up")
 	}
 	AnywayGo(sess.startReadAndHandle)
@@ -306,7 +308,9 @@ func (p *peer) ServeConn(conn net.Conn, protoFunc ...ProtoFunc) (Session, *Statu
 	// index the session before its read loop can end it (as the listener path does)
 	p.sessHub.set(sess)
 	if !sess.tryChangeStatus(statusOk, statusPreparing) {
-		// closed meanwhile (its id was taken over, or the peer is closing): it must not come back to life
+		// closed meanwhile (its id was taken over, or the peer is closing): it must not come back to life,
+		// and the entry just written for it must not stay in the index
+		p.sessHub.deleteIf(sess.ID(), sess)
 		return nil, statConnClosed.Copy("the session was closed while it was being set up")
 	}
 	AnywayGo(sess.startReadAndHandle)
@@ -386,7 +390,9 @@ func (p *peer) serveListener(lis net.Listener, protoFunc ...ProtoFunc) error {
 			Infof("accept ok (network:%s, addr:%s, id:%s)", network, sess.RemoteAddr().String(), sess.ID())
 			p.sessHub.set(sess)
 			if !sess.tryChangeStatus(statusOk, statusPreparing) {
-				// closed meanwhile (its id was taken over, or the peer is closing): it must not come back to life
+				// closed meanwhile (its id was taken over, or the peer is closing): it must not come back to life,
+				// and the entry just written for it must not stay in the index
+				p.sessHub.deleteIf(sess.ID(), sess)
 				return
 			}
 			sess.startReadAndHandle()
